@@ -945,10 +945,10 @@ theorem havingAxes_ne_nil (arrays : List (List Axis)) (d : String)
 
 /-- `_get_aligned_axes` (not strict) succeeds when every requested dimension is on some array -/
 theorem getAlignedAxes_succeeds (arrays : List (List Axis)) (join : Join) (axis : Option String) (sort : Bool)
-    (h : ∀ d ∈ alignDims arrays axis, ∃ axes ∈ arrays, d ∈ axes.map (·.name)) :
+    (h : ∀ d ∈ alignedDims arrays axis, ∃ axes ∈ arrays, d ∈ axes.map (·.name)) :
     ∃ commons, getAlignedAxes arrays join axis sort false = .ok commons := by
   unfold getAlignedAxes
-  apply exMapM_of_forall _ (alignDims arrays axis)
+  apply exMapM_of_forall _ (alignedDims arrays axis)
   intro d hd
   have hne := havingAxes_ne_nil arrays d (h d hd)
   unfold havingAxes at hne
@@ -958,7 +958,7 @@ theorem getAlignedAxes_succeeds (arrays : List (List Axis)) (join : Join) (axis 
     obtain ⟨r, hr⟩ := commonAxis_isSome join x xs
     exact ⟨if sort then axisSort r else r, by simp [hr, pure, Except.pure]⟩
 
-theorem alignDims_none_mem (arrays : List (List Axis)) (d : String) (hd : d ∈ alignDims arrays none) :
+theorem alignedDims_none_mem (arrays : List (List Axis)) (d : String) (hd : d ∈ alignedDims arrays none) :
     ∃ axes ∈ arrays, d ∈ axes.map (·.name) := by
   have : d ∈ getDims arrays := hd
   rw [getDims_mem] at this
@@ -1093,8 +1093,8 @@ theorem align_axis_spec {α : Type} (nan : α) (arrays outs : List (DimArray α)
     have hcl1 : commons.length = 1 := hcl
     match commons, hcl1 with
     | [common], _ =>
-      obtain ⟨ax, hax, hcom⟩ := hcs 0 (by simp [alignDims]) (by simp)
-      have hd0 : (alignDims (arrays.map (·.axes)) (some d))[0]'(by simp [alignDims]) = d := rfl
+      obtain ⟨ax, hax, hcom⟩ := hcs 0 (by simp [alignedDims]) (by simp)
+      have hd0 : (alignedDims (arrays.map (·.axes)) (some d))[0]'(by simp [alignedDims]) = d := rfl
       rw [hd0] at hax
       have hname : common.name = d := by
         have := (commonLabels_spec arrays join d sort hin ax hax Label.none).1
@@ -1137,8 +1137,8 @@ theorem align_axis_labels {α : Type} (arrays : List (DimArray α)) (join : Join
     (join = .inner → (v ∈ common.labels ↔ ∀ a ∈ arrays, ∀ ax ∈ a.axes, ax.name = d → v ∈ ax.labels)) ∧
     (sort = true → common.labels.Pairwise (fun x y => Label.le x y = true)) := by
   obtain ⟨_, hcs⟩ := getAlignedAxes_ok _ join (some d) sort [common] hc
-  obtain ⟨ax, hax, hcom⟩ := hcs 0 (by simp [alignDims]) (by simp)
-  have hd0 : (alignDims (arrays.map (·.axes)) (some d))[0]'(by simp [alignDims]) = d := rfl
+  obtain ⟨ax, hax, hcom⟩ := hcs 0 (by simp [alignedDims]) (by simp)
+  have hd0 : (alignedDims (arrays.map (·.axes)) (some d))[0]'(by simp [alignedDims]) = d := rfl
   rw [hd0] at hax
   simp only [List.getElem_cons_zero] at hcom
   rw [hcom]
@@ -1243,13 +1243,13 @@ theorem align_succeeds {α : Type} (nan : α) (arrays : List (DimArray α)) (joi
     (sort : Bool) (hin : ∀ a ∈ arrays, AlignInput a)
     (hax : ∀ d, axis = some d → ∃ a ∈ arrays, d ∈ a.dims) :
     ∃ outs, align nan arrays join axis sort false = .ok outs := by
-  have hdims : ∀ d ∈ alignDims (arrays.map (·.axes)) axis,
+  have hdims : ∀ d ∈ alignedDims (arrays.map (·.axes)) axis,
       ∃ axes ∈ arrays.map (·.axes), d ∈ axes.map (·.name) := by
     cases axis with
-    | none => exact alignDims_none_mem _
+    | none => exact alignedDims_none_mem _
     | some d0 =>
       intro d hd
-      have : d = d0 := by simpa [alignDims] using hd
+      have : d = d0 := by simpa [alignedDims] using hd
       subst this
       obtain ⟨a, ha, hda⟩ := hax d rfl
       exact ⟨a.axes, List.mem_map.mpr ⟨a, ha, rfl⟩, hda⟩
